@@ -202,14 +202,16 @@ class TabIntpCompuMethod(CompuMethod):
         return res
 
     def is_valid_physical_value(self, physical_value: AtomicOdxType) -> bool:
-        if not isinstance(physical_value, (int, float)):
+        if not isinstance(physical_value, (int, float)) or \
+           not self.physical_type.isinstance(physical_value):
             return False
 
         return min(self.physical_points) <= physical_value and physical_value <= max(
             self.physical_points)
 
     def is_valid_internal_value(self, internal_value: AtomicOdxType) -> bool:
-        if not isinstance(internal_value, (int, float)):
+        if not isinstance(internal_value, (int, float)) or \
+           not self.internal_type.isinstance(internal_value):
             return False
 
         return min(self.internal_points) <= internal_value and internal_value <= max(
